@@ -29,13 +29,20 @@ class AGRun:
         self.need_p = None
         self.error = None
         self.timed_out = False
+        self.draw_failed = False
         orig = gg.SchulzZimm.draw_mw
         left = None if forced is None else list(forced)
         run = self
 
         def wrap(dist, rng=None):
             if left is None:
-                v = orig(dist, rng)
+                try:
+                    v = orig(dist, rng)
+                except Exception:
+                    # scipy's generic discrete ppf gives up for some quantiles: the Schulz-Zimm draw itself fails (C11's known finding),
+                    # no molecule is attempted -- outside what C18 speaks about
+                    run.draw_failed = True
+                    raise
             else:
                 if not left:
                     raise NeedTargetErr()
@@ -104,6 +111,22 @@ class NeedTargetErr(Exception):
     pass
 
 
+def static_from_sag(ag):
+    """the static bonds of the stochastic atom graph, built by the harness itself from the graph handed to AtomGraph (not read from
+    AtomGraph.static_graph, which is the implementation's own product): one undirected bond per pair of atoms that has a static
+    multi-edge, with THAT edge's bond type, in the order of the graph's edge iteration (this fixes networkx's adjacency order)"""
+    if getattr(ag, "_verif_static", None) is None:
+        G = ag.stochastic_graph
+        SG = nx.Graph()
+        SG.add_nodes_from(G.nodes())
+        for u, v in G.edges():
+            valid = next((d for d in G.get_edge_data(u, v).values() if d["static_weight"] != 0), None)
+            if valid is not None and not SG.has_edge(u, v):
+                SG.add_edge(u, v, bond_type=valid["bond_type"])
+        ag._verif_static = SG
+    return ag._verif_static
+
+
 def graph_fields(ag):
     """the oracle data handed to the model: per stochastic node its mass, (Mw, Mn) key, out-edge lists by kind in networkx order,
     static adjacency in networkx order; the static bonds; the start node"""
@@ -125,9 +148,9 @@ def graph_fields(ag):
                 E.append(f"{idx[v]}:{int(ed['bond_type'])}:{frs(ed['termination_weight'])}")
             if ed["stochastic_weight"] != 0:
                 S.append(f"{idx[v]}:{int(ed['bond_type'])}:{frs(ed['stochastic_weight'])}")
-        adj = ",".join(str(idx[m]) for m in ag.static_graph.adj[n])
+        adj = ",".join(str(idx[m]) for m in static_from_sag(ag).adj[n])
         nodes.append("|".join([frs(atomic_masses[d["atomic_num"]]), str(key), "0", ",".join(T), ",".join(E), ",".join(S), adj]))
-    statics = ",".join(f"{idx[u]}:{idx[v]}:{int(d['bond_type'])}" for u, v, d in ag.static_graph.edges(data=True))
+    statics = ",".join(f"{idx[u]}:{idx[v]}:{int(d['bond_type'])}" for u, v, d in static_from_sag(ag).edges(data=True))
     start = ag._find_start_source()
     return ";".join(nodes), statics, (None if start is None else idx[start]), idx
 
@@ -167,7 +190,7 @@ def oracle(ag_run, idx):
     ag = ag_run.ag
     out = []
     G = ag.graph
-    SG = ag.static_graph
+    SG = static_from_sag(ag)
     MG = ag.stochastic_graph
     if G.number_of_nodes() == 0:
         return [("no atoms generated", None, None)]
